@@ -10,6 +10,10 @@ from .evalexpr import EvalMixin
 from .builtins_ import BuiltinMixin
 
 
+def _has_alias(desc):
+    return isinstance(desc, tuple) and desc[0] == "tuple" and any(isinstance(d, tuple) and d[0] == "alias" for d in desc[1])
+
+
 def assigned_names(stmts):
     names = set()
 
@@ -525,7 +529,11 @@ class Interp(EvalMixin, BuiltinMixin):
                 cur = fr.locals[nme]
                 if isinstance(cur, ListV) and (id(cur), "*") in havoced:
                     continue
-                nv = self.havoc_value(cur, nme, declared.get(nme))
+                try:
+                    nv = self.havoc_value(cur, nme, declared.get(nme))
+                except Unsupported:
+                    # a local holding a structured temporary (e.g. a match object): unusable until re-assigned
+                    nv = Opaque(("havoced-local", nme))
                 fr.locals[nme] = nv
             elif nme in declared and declared[nme] is not None:
                 fr.locals[nme] = fresh(declared[nme], nme, run)
@@ -624,6 +632,7 @@ class Interp(EvalMixin, BuiltinMixin):
         return sfr
 
     def collect_olds(self, con, sfr, texts):
+        texts = list(texts) + [t for (_, t) in con.defs.values() if "old(" in t]
         for text in texts:
             e = parse_expr(text)
             for n in ast.walk(e):
@@ -658,7 +667,11 @@ class Interp(EvalMixin, BuiltinMixin):
             self.havoc_lvalue(lv, sfr)
         if k > 0:
             self.py_raise(whens[k - 1][0])
-        result = fresh(con.returns_, "ret", run) if con.returns_ is not None else None
+        result = fresh(con.returns_, "ret", run) if con.returns_ is not None and not _has_alias(con.returns_) else None
+        if con.returns_ is not None and _has_alias(con.returns_):
+            # ("tuple", [...]) whose ("alias", param) components ARE the argument objects (returned by reference)
+            result = tuple(bound[d[1]] if (isinstance(d, tuple) and d[0] == "alias") else fresh(d, f"ret.{i}", run)
+                           for i, d in enumerate(con.returns_[1]))
         sfr.locals["result"] = result
         for (lbl, text) in con.ensures_:
             run.assume(zbool(truth(self.ev(parse_expr(text), sfr))))
